@@ -1,3 +1,4 @@
+import Sucds.Model.IndexIter
 /-! C17: the six index-based iterators (`BitVector`, `CompactVector`, `DacsByte`, `DacsOpt`,
     `PrefixSummedEliasFano`, `WaveletMatrix`) share one shape: `next` = `access(pos)` then `pos += 1`
     while `pos < len`; `size_hint` after repair F2 = `(len - pos, Some(len - pos))` (the pinned tree
@@ -6,21 +7,6 @@ set_option linter.unusedSimpArgs false
 set_option linter.unusedVariables false
 namespace Sucds.IndexIter
 
-structure It where
-  pos : Nat
-
-/-- `next()` over a container of length `len` whose `access(i)` is `acc i` -/
-def next {α} (len : Nat) (acc : Nat → Option α) (it : It) : Option α × It :=
-  if it.pos < len then (acc it.pos, ⟨it.pos + 1⟩) else (none, it)
-/-- `size_hint()` after repair F2 -/
-def sizeHint (len : Nat) (it : It) : Nat × Option Nat := (len - it.pos, some (len - it.pos))
-/-- `size_hint()` in the pinned tree (D2) -/
-def sizeHint0 (len : Nat) (it : It) : Nat × Option Nat := (len, some len)
-
-/-- answers of `n` successive `next()` calls together with the size hint seen before each call -/
-def runN {α} (len : Nat) (acc : Nat → Option α) : It → Nat → List (Option α × (Nat × Option Nat))
-  | _, 0 => []
-  | it, n+1 => ((next len acc it).1, sizeHint len it) :: runN len acc (next len acc it).2 n
 
 /-- the iterator yields the stored list in order, then `none` on every further call, and its size hint
     is exact at every step -/
